@@ -42,6 +42,7 @@ type kScen struct {
 	} `json:"flags"`
 	Frames []kFrame `json:"frames"`
 	Segs   []int    `json:"segs"`
+	Again  []int    `json:"again"` // further Sends before the receive call with this (0-based) number
 }
 
 var stdKey = map[string]string{"InterfaceNotFound": "interface", "MethodNotFound": "method", "MethodNotImplemented": "method", "InvalidParameter": "parameter"}
@@ -246,6 +247,7 @@ func runClientScen(log *tr.Log, sc *kScen, rng *rand.Rand, cut1 int) {
 	b.SetReadDeadline(time.Time{})
 	// the scripted server: writes its segments, then dies
 	srng := rand.New(rand.NewSource(rng.Int63()))
+	saDone := make(chan struct{})
 	go func() {
 		pos := 0
 		for _, n := range sc.Segs {
@@ -258,10 +260,32 @@ func runClientScen(log *tr.Log, sc *kScen, rng *rand.Rand, cut1 int) {
 			b.Write(buf)
 			time.Sleep(time.Duration(50+srng.Intn(200)) * time.Microsecond)
 		}
+		// the server dies only after the client's pipelined requests are out, and after reading them: its close
+		// is a clean EOF for the client (unread input would turn it into a reset)
+		<-saDone
+		if len(sc.Again) > 0 {
+			b.SetReadDeadline(time.Now().Add(30 * time.Millisecond))
+			io.Copy(io.Discard, b)
+		}
 		log.Ev("SC", nil)
 		b.Close()
 	}()
+	saLeft := len(sc.Again)
+	if saLeft == 0 {
+		close(saDone)
+	}
 	for k := 0; k <= len(sc.Frames); k++ {
+		for _, at := range sc.Again {
+			if at == k {
+				// pipelining: the next request goes out while replies are outstanding (the server may be gone: the
+				// outcome of this Send is not judged, what the receive calls return afterwards is)
+				_, serr := conn.Send(ctx, "a.b.Next", map[string]int{"n": k}, 0)
+				log.Ev("SA", tr.M{"k": k, "ok": serr == nil})
+				if saLeft--; saLeft == 0 {
+					close(saDone)
+				}
+			}
+		}
 		var out json.RawMessage
 		fl, err := recv(ctx, &out)
 		e := classifyRecv(err, fl, out)
